@@ -18,7 +18,7 @@ SPEC = {
              "distinct molecules with >=2 atoms, >=1 bond and at least one non-identity attribute (charge, coordinate, bond type != 1)"),
     "assumptions": ["the scratch flag 'explored' may appear on the serializer's argument with value False (the property allows exactly that)"],
     "monitors_required": ["c12_canon", "c12_canon_repeat", "c12_serialize", "c12_history_compare"],
-    "required_obs": {"quick": ["cov_other_drawing_same_identity", "cov_charged", "cov_bond_types", "cov_multi_component", "cov_corpus", "cov_foreign_attribute"]},
+    "required_obs": {"quick": ["cov_foreign_attributes_with_common_names", "cov_other_drawing_same_identity", "cov_charged", "cov_bond_types", "cov_multi_component", "cov_corpus", "cov_foreign_attribute"]},
     "watchdog_s": {"quick": 900, "thorough": 3600},
 }
 PLAN = {
@@ -39,6 +39,8 @@ def _run_case(ctx, case):
     for v, d in g0.nodes(data=True):
         d["_rv_foreign"] = ("note", v)  # a foreign attribute must be carried along too
     g0.graph["_rv_graph_attr"] = "kept?"
+    if rng.random() < 0.25:
+        molprops.add_foreign_attributes(ctx, g0, rng)
     ctx.count("cov_foreign_attribute")
     ctx.evaluations += 1
     ok, r = molprops.guarded(ctx, case, c.canonicalize_molecule, g0)
